@@ -848,3 +848,38 @@ def rewrite_auto_tbl(ftoks, lo, table, log, fn):
                             break
         k += 1
     return out
+
+
+def rewrite_braced_assign(ftoks, lo, log, fn):
+    """N4b: `LHS = {e1, ..., ek};` where LHS is an expression (not a declaration) -> `{ LHS.clear(); LHS.push_back(e1); ... }`
+    - the meaning of assigning an initializer list to a std::vector (the front end rejects the braced form).
+    `LHS = {};` becomes `LHS.clear();` (rule N4)."""
+    out = list(ftoks)
+    k = lo
+    while k < len(out):
+        if out[k].kind == 'op' and out[k].text == '=' and next_code(out, k) < len(out) and out[next_code(out, k)].text == '{':
+            b = next_code(out, k)
+            e = match_close(out, b)
+            semi = next_code(out, e)
+            if semi < len(out) and out[semi].text == ';':
+                s = k
+                while True:
+                    p = prev_code(out, s)
+                    if p < 0 or out[p].text in (';', '{', '}'):
+                        break
+                    s = p
+                lhs = [x for x in out[s:k] if is_code(x)]
+                decl = any(lhs[i].kind == 'id' and lhs[i + 1].kind == 'id' for i in range(len(lhs) - 1)) or \
+                    any(x.text in ('>', '*', '&') for x in lhs[:-1] if x.kind == 'op') and lhs[-1].kind == 'id' and len(lhs) >= 2 and lhs[-2].text in ('>', '*', '&')
+                if lhs and not decl and lhs[0].text not in ('return',):
+                    lt = untok(out[s:k]).strip()
+                    items = _split_top(out[b + 1:e])
+                    if any(is_code(x) and x.text == '.' and i == 0 for it in items for i, x in enumerate([y for y in it if is_code(y)])):
+                        k += 1
+                        continue  # designated initialiser: not a vector assignment
+                    txt = '{ ' + lt + '.clear(); ' + ' '.join(f'{lt}.push_back({untok(it).strip()});' for it in items) + ' }'
+                    out[s:semi + 1] = _retok(txt)
+                    log.fire('N4b', fn)
+                    k = s
+        k += 1
+    return out
